@@ -15,6 +15,8 @@ SPECS = {
     'rsa2048':   ('RSAEncryptOrSign', 2048, [('RSAEncryptOrSign', 2048, 'enc')], 'Alice RSA (test) <alice@example.com>'),
     'rsa3072':   ('RSAEncryptOrSign', 3072, [], 'Bob RSA <bob@example.com>'),
     'rsa1024':   ('RSAEncryptOrSign', 1024, [], 'Weak RSA <weak@example.com>'),
+    # modulus length that is not a multiple of 8 bits (octet length = ceiling): about one signature in three is a value below 2^2048
+    'rsa2050':   ('RSAEncryptOrSign', 2050, [], 'Odd RSA <odd@example.com>'),
     'dsa2048':   ('DSA', 2048, [], 'Dora DSA <dora@example.com>'),
     'dsa1024':   ('DSA', 1024, [], 'Weak DSA <weakdsa@example.com>'),
     'ed25519':   ('EdDSA', 'Ed25519', [('ECDH', 'Curve25519', 'enc'), ('EdDSA', 'Ed25519', 'sign')], 'Eve Ed (comment) <eve@example.com>'),
